@@ -241,6 +241,10 @@ def run(repo, rep, tier):
         "chameleon.compiler.emit_func_convert_and_escape", "the result of "
         "the needs-escape search is tested against None",
         construct="precheck-none", detail=str([src(c) for c in pre]))
+    # ... and the module cache: the mode is part of the key (C15 owns it)
+    from . import c15 as _c15
+    L.borrow(repo, rep, "R02.5", "C15", _c15._coverage,
+             ("unhashed:mode",), minimum=1)
     L.state_rule(repo, rep)
 
 
